@@ -285,6 +285,7 @@ func registerIntrinsics(e *Engine) {
 	registerOS(e)
 	registerHash(e)
 	registerPipe(e)
+	registerReflect(e)
 	registerMisc(e)
 	registerBig(e)
 }
